@@ -80,6 +80,10 @@ class MetadataMixin(Metadata):
 
 
 class MetadataImplem(dict, Metadata):  # type: ignore
+    # dict.__or__ (Python >= 3.9) would return a plain (unhashable) dict
+    __or__ = Metadata.__or__
+    __ror__ = Metadata.__ror__
+
     def __hash__(self):
         return hash(tuple(sorted(self.items())))
 
